@@ -286,6 +286,8 @@ def cases(tier, seed):
             out.append({"id": "accumulator:%s" % "".join(map(str, sub)),
                         "kind": "acc", "members": list(sub), "tier": tier})
     out.append({"id": "accumulator:repeats", "kind": "accrep", "tier": tier})
+    out.append({"id": "accumulator:mixed-float-widths", "kind": "accdtype",
+                "tier": tier})
     # centre finder: one case per configuration
     if tier == "quick":
         pts = [(0, 0), (0, 4), (2, 2), (4, 0), (4, 4)]
@@ -1077,6 +1079,48 @@ def _run_accrep(case, ck):
     return digest(*acc)
 
 
+def _run_accdtype(case, ck):
+    """frames of different floating-point width (a float32 camera frame
+    among float64 ones): every value is exactly representable, so the batch
+    mean / std are those of the numbers, whichever frame comes first"""
+    from holopy.core.io.io import Accumulator
+    nx, ny = 4, 5
+    i, j = np.mgrid[0:nx, 0:ny]
+    frames = [(3.0 + 7 * i + j).astype("float32"),
+              1000.25 + 37.0 * ((i * j) % 5), 0.125 * (i - 2 * j) ** 2 + 30]
+    stack = np.array([np.asarray(f_, dtype=float) for f_ in frames])
+    rm, rs = stack.mean(axis=0), stack.std(axis=0)
+    scale = float(np.abs(stack).max())
+    acc_fp = []
+    for order in itertools.permutations(range(3)):
+        for as_image in (False, True):
+            acc = Accumulator()
+            what = "Accumulator pushes %r (frame 0 is float32, %s)" % (
+                order, "images" if as_image else "ndarrays")
+            for k in order:
+                x = _mk(frames[k], "M0") if as_image else frames[k].copy()
+                if as_image and frames[k].dtype == np.float32:
+                    x = x.astype("float32")
+                _t(what, acc.push, x)
+                ck.trans += 1
+            m, sd = _t(what, acc.mean), _t(what, acc.std)
+            mv = np.asarray(getattr(m, "values", m), dtype=float).reshape(
+                rm.shape)
+            sv = np.asarray(getattr(sd, "values", sd), dtype=float).reshape(
+                rm.shape)
+            e = float(np.abs(mv - rm).max() / scale)
+            ck.metric("accumulator-mean", e)
+            ck.true("accumulator-mean", e <= TOLERANCES["accumulator-mean"],
+                    "%s: mean differs from the batch mean by %.3g" %
+                    (what, e))
+            e = float(np.abs(sv - rs).max() / scale)
+            ck.metric("accumulator-std", e)
+            ck.true("accumulator-std", e <= TOLERANCES["accumulator-std"],
+                    "%s: std differs from the batch std by %.3g" % (what, e))
+            acc_fp.append(np.round(mv, 8))
+    return digest(*acc_fp)
+
+
 # --------------------------------------------------------------------------
 # centre finder
 # --------------------------------------------------------------------------
@@ -1199,6 +1243,7 @@ def run_case(case):
               "subimage": _run_subimage, "zero1": _run_zero1,
               "zero2": _run_zero2, "detrend": _run_detrend,
               "acc": _run_acc, "accrep": _run_accrep,
+              "accdtype": _run_accdtype,
               "centre": _run_centre, "priors": _run_priors}[kind](case, ck)
     except _ToolRaised as e:
         # an error on an input the property covers (refusals the property
@@ -1206,6 +1251,7 @@ def run_case(case):
         # are handled where they are expected)
         tool = {"zero1": "zero-filter", "zero2": "zero-filter",
                 "acc": "accumulator", "accrep": "accumulator",
+                "accdtype": "accumulator",
                 "priors": "center-priors"}.get(kind, kind)
         ck.true("%s-raised" % tool, False, str(e)[:600])
         fp = digest("raised", str(e)[:200])
